@@ -171,8 +171,11 @@ Qed.
 Print Assumptions C20_stats_end_eof_refuted.
 
 (* a request refused before dispatch (undecodable metadata) reaches no stats handler at all *)
-Theorem C20_stats_refused : su_events SU_bad_metadata = [] /\ ss_events SS_bad_metadata = [].
-Proof. split; reflexivity. Qed.
+Theorem C20_stats_refused :
+  su_events SU_bad_metadata = [] /\ ss_events SS_bad_metadata = [] /\
+  (* ... nor does a request that was still waiting for a worker when its connection ended *)
+  su_events SU_undispatched = [].
+Proof. repeat split; reflexivity. Qed.
 Print Assumptions C20_stats_refused.
 
 (* exactly one ConnBegin and one ConnEnd (tagged with TagConn's context) per
